@@ -127,6 +127,7 @@ static int cmp_find(const void *a, const void *b, void *p)
 }
 
 #define SCOPE(nl, nk, np, cm) ((nl) | (nk) << 4 | (np) << 8 | (cm) << 20)
+static unsigned init_toggle;
 static void st_create(int scope)
 {
     int i;
@@ -136,7 +137,13 @@ static void st_create(int scope)
     for (i = 0; i < nlists; i++) {
         cls[i] = (scope >> (20 + i)) & 1;
         memset(&L[i], 0x77, sizeof(L[i]));
-        cstl_dlist_init(&L[i], cls_off[cls[i]]);
+        /* both documented ways of making a list: the init function and (every other time) the static initialiser */
+        if (++init_toggle & 1) cstl_dlist_init(&L[i], cls_off[cls[i]]);
+        else {
+            if (cls[i]) L[i] = (struct cstl_dlist)CSTL_DLIST_INITIALIZER(L[i], struct elem, node2);
+            else L[i] = (struct cstl_dlist)CSTL_DLIST_INITIALIZER(L[i], struct elem, node);
+            VRT_COUNT("lists.made-with-initializer-macro");
+        }
         Mn[i] = 0;
     }
 }
